@@ -400,11 +400,15 @@ def in_grammar(case) -> bool:
     return p is None or int(p) >= int(w or 0)
 
 
+FLAG_NAMES = {"-": "minus", "+": "plus", " ": "space", "#": "hash", "0": "zero"}
+
+
 def sig_of(case, i) -> str:
+    """names the failing input class: which flags, whether a width / precision is present"""
     if case["prec"] is not None and int(case["prec"]) == 0 and i == 0:
         return "int_replacer:precision-0:index-0"
-    fl = "".join(sorted(set(case["flags"]))).replace(" ", "_")
-    return f"int_replacer:differs-from-printf:flags=[{fl}]:width={'yes' if case['width'] else 'no'}:precision={'yes' if case['prec'] is not None else 'no'}"
+    fl = ".".join(FLAG_NAMES.get(c, "x%02x" % ord(c)) for c in sorted(set(case["flags"]))) or "none"
+    return f"printf-mismatch:{fl}:{'w' if case['width'] else '-'}{'p' if case['prec'] is not None else '-'}"
 
 
 def oracle_derive(case, obs):
